@@ -75,6 +75,16 @@ def component_ops(ctx: Ctx, table: list, rng: random.Random) -> list[dict]:
             if mode == 8:       # letters where digits are required / digits where letters are
                 acct = "".join(rng.choice("ABCXYZ019") for _ in range(len(acct)))
             ops.append({"op": op, "cc": cps(cc), "bank": cps(bank), "branch": cps(branch), "acct": cps(acct)})
+        # components made of zeros only: padding must not be confused with supplied zeros
+        if wr:
+            combined = field_chars(row, "bank_code", rng, wb) + field_chars(row, "branch_code", rng, wr)
+            for zb in ("0", "0" * wr, "0" * (wr + 1)):
+                ops.append({"op": "bban.from_components" if len(zb) % 2 else "iban.generate", "cc": cps(cc),
+                            "bank": cps(combined), "branch": cps(zb), "acct": cps(field_chars(row, "account_code", rng, wa))})
+        ops.append({"op": "iban.generate", "cc": cps(cc), "bank": cps("0" * max(wb, 1)), "branch": cps("0" * wr),
+                    "acct": cps("0" * wa)})
+        ops.append({"op": "bban.from_components", "cc": cps(cc), "bank": cps("0" * (wb + 1)), "branch": cps(""),
+                    "acct": cps("0" * (wa + 1))})
         # a branch code supplied for a country without a branch field
         if wr == 0:
             ops.append({"op": "iban.generate", "cc": cps(cc), "bank": cps(field_chars(row, "bank_code", rng, wb)),
